@@ -649,6 +649,9 @@ func c07Ops(v2 bool, amounts []types.Currency) []c07op {
 		ops = append(ops,
 			c07op{"redistribute(2x1SC)", func(w *c07World) string { return w.redistribute(2, univ.SC(1)) }},
 			c07op{"redistribute(3x2SC)", func(w *c07World) string { return w.redistribute(3, univ.SC(2)) }},
+			// more than one batch of 10 outputs: the second batch can (12 x 0.5 SC) or cannot (14 x 0.75 SC) be funded
+			c07op{"redistribute(12x0.5SC)", func(w *c07World) string { return w.redistribute(12, univ.SC(1).Div64(2)) }},
+			c07op{"redistribute(14x0.75SC)", func(w *c07World) string { return w.redistribute(14, univ.SC(3).Div64(4)) }},
 			c07op{"split(2,1SC)", func(w *c07World) string { return w.split(2, univ.SC(1)) }},
 		)
 	}
